@@ -44,7 +44,8 @@ fn write_tree(root: &Path, files: &[(String, String)]) {
 
 /// a directory tree of notes: nested directories, non-note files, names with spaces
 pub fn gen_tree(r: &mut Rng, with_md_md: bool) -> Vec<(String, String)> {
-    let names = ["a", "b", "my note", "d/x", "d/e/z", "d/two words", "f/x", "ü"];
+    // names with a dot before `.md` (`release-1.2.md`) and directories with dots: the key keeps them
+    let names = ["a", "b", "my note", "d/x", "d/e/z", "d/two words", "f/x", "ü", "release-1.2", "v1.0/notes.2024"];
     let keys: Vec<String> = names.iter().map(|s| s.to_string()).collect();
     let n = r.range(1, 6);
     let mut files: Vec<(String, String)> = vec![];
@@ -64,6 +65,13 @@ pub fn gen_tree(r: &mut Rng, with_md_md: bool) -> Vec<(String, String)> {
     // no lower-case twin appears next to them
     files.push(("README.MD".to_string(), "*  upper case extension  *\n".to_string()));
     files.push(("d/CHANGES.Md".to_string(), "*  mixed case extension  *\n".to_string()));
+    // a leftover temporary file of an earlier, killed run (longer than the note it belongs to): the next run
+    // may replace or remove it, but the note must come out exactly as the export says
+    if let Some((p, _)) = files.first().cloned() {
+        if r.chance(1, 2) {
+            files.push((format!("{}.tmp", p), format!("{}\n", "stale leftover line that is longer than anything the note will hold ".repeat(40))));
+        }
+    }
     if with_md_md {
         files.push(("x.md.md".to_string(), "# double\n".to_string()));
     }
@@ -96,6 +104,10 @@ fn run_iwe(root: &Path, strace: Option<&[&str]>) -> (bool, String) {
 /// after a (possibly failed) run: every note file old or new, nothing else touched
 fn check_after(before: &Snap, after: &Snap, want: &BTreeMap<String, String>, complete: bool, allow_tmp: bool) -> Option<String> {
     for (p, old) in before {
+        // a leftover temporary file is the tool's own: it may be replaced or removed
+        if p.ends_with(".md.tmp") {
+            continue;
+        }
         match after.get(p) {
             None => return Some(format!("{:?} was deleted", p)),
             Some(new) => {
